@@ -162,7 +162,8 @@ func runC03(c *Ctx) {
 					ec := &endorse.Context{
 						SevSnp: &sev.SnpEndorsementRequest{Svn: uint32(r.Intn(4)), Product: spb.SevProduct_SEV_PRODUCT_MILAN,
 							LaunchVmsas: uint32([]int{0, 1, 4}[r.Intn(3)])},
-						Tdx:   &tdx.EndorsementRequest{Svn: 1},
+						Tdx: &tdx.EndorsementRequest{Svn: 1, IncludeEarlyAccept: r.Intn(3) != 0,
+							MachineShapes: [][]string{nil, {"c3-standard-4"}, {"c3-standard-4", "c3-standard-8"}, {"c3-standard-8", "c3-standard-22", "c3-standard-4"}}[r.Intn(4)]},
 						Image: img, ClSpec: uint64(1 + r.Intn(9)), Timestamp: ts,
 						VCS: &localnonvcs.T{Root: vdir}, OutDir: fmt.Sprintf("s%d", state),
 					}
@@ -282,6 +283,29 @@ func c03Verify(c *Ctx, st *c03Stack, e *c03End, state int, t0 time.Time, rots []
 				c.Count("verify/ok")
 			} else {
 				c.Count("verify/reject")
+			}
+			// the same endorsement through the SEV-SNP validation hook (what go-sev-guest calls back), for a report
+			// carrying a listed measurement, with the caller's roots and verification time: it must decide as
+			// verify.Endorsement does at that time (in particular accept everywhere inside both validity windows)
+			if ms := e.golden.GetSevSnp().GetMeasurements(); len(ms) > 0 && !pan {
+				k := sortedKeys(ms)[0]
+				var cerr error
+				cpan, cmsg, _ := Guard(func() {
+					f := verify.SNPValidateFunc(&verify.Options{RootsOfTrust: roots, Now: now, SNP: &verify.SNPOptions{ExpectedLaunchVMSAs: k}})
+					cerr = f(&spb.Attestation{Report: &spb.Report{Measurement: ms[k]}}, e.bytes)
+				})
+				cop := op + " via=closure"
+				if cpan {
+					c.Find("c03/verify/panic", "the SNP validation hook panicked: "+cmsg, cop)
+				}
+				c.Case(cop, okrej(cerr == nil && !cpan), e.issued > 0 || state > e.issued)
+				if rk == "own" && inBoth && cerr != nil {
+					c.Find("c03/verify/closure-rejected-own/"+st.name, "the SNP validation hook rejects a listed measurement of an endorsement the pipeline wrote, under its own root inside both validity windows: "+cerr.Error(), cop)
+				}
+				if (cerr == nil) != (err == nil) {
+					c.Find("c03/verify/closure-differs", "the SNP validation hook and verify.Endorsement decide differently for the same endorsement, roots and verification time", cop)
+				}
+				c.Count("verify/closure")
 			}
 			if rk != "own" {
 				break
